@@ -95,4 +95,9 @@ func exprs(a, b int, xs []int, c chan int, p *int) {
 	_ = +1 * b
 	_ = scale(a, -1, b)
 	_ = scale(a, 1, b)
+	// instantiations with several type arguments
+	_ = gen[Pair[int, string]](a)
+	_ = gen[List[int]](a)
+	_ = use(conv[int, string])
+	_ = must(parse[int, error](a))
 }
